@@ -15,6 +15,7 @@ import (
 	"go.uber.org/zap/zapcore"
 	"go.uber.org/zap/zapgrpc"
 	"go.uber.org/zap/zapio"
+	"go.uber.org/zap/zaptest/observer"
 )
 
 // C05 — an entry is written exactly where its level is enabled; reported levels agree.
@@ -101,6 +102,9 @@ func checkC05(c *Ctx) {
 		}
 		c.Add("traces_validated_against_impl", 1)
 	}})
+	for _, f := range replayHookStacks() {
+		c.Violation(f.Key, f.What, map[string]interface{}{"scenario": "hook-stacks"})
+	}
 	c.Set("compositions_replayed", int64(n))
 	c.Set("exhaustive", true)
 	c.Set("rule", "every core composition of CoreTree.tla up to the configured depth/enablers, every value sequence of the shared AtomicLevel up to MaxSet changes, every level class, every front end")
@@ -385,4 +389,67 @@ func ctCompareDecisions(w *ctWorld, want map[string]bool) (key, msg string) {
 		}
 	}
 	return "", ""
+}
+
+// replayHookStacks: hooks registered layer upon layer (zap.Hooks through WithOptions, RegisterHooks on an already
+// hooked core), then sibling loggers each adding one more: every logger's entries fire exactly the hooks registered
+// on its own derivation path, once each (CoreTree.tla: hook(hook(...hook(leaf)))) with branching).
+func replayHookStacks() (finds []Finding) {
+	for depth := 1; depth <= 5; depth++ {
+		for _, viaCore := range []bool{false, true} {
+			counts := map[string]int{}
+			hookFn := func(name string) func(zapcore.Entry) error {
+				return func(zapcore.Entry) error { counts[name]++; return nil }
+			}
+			oc, _ := observerNew()
+			var core zapcore.Core = oc
+			lg := zap.New(core)
+			path := []string{}
+			for d := 1; d <= depth; d++ {
+				name := fmt.Sprintf("layer%d", d)
+				path = append(path, name)
+				if viaCore {
+					core = zapcore.RegisterHooks(core, hookFn(name))
+					lg = zap.New(core)
+				} else {
+					lg = lg.WithOptions(zap.Hooks(hookFn(name)))
+				}
+			}
+			mkChild := func(name string) *zap.Logger {
+				if viaCore {
+					return zap.New(zapcore.RegisterHooks(core, hookFn(name)))
+				}
+				return lg.WithOptions(zap.Hooks(hookFn(name)))
+			}
+			a, b := mkChild("siblingA"), mkChild("siblingB")
+			check := func(who string, l *zap.Logger, own []string, times int) {
+				for k := range counts {
+					delete(counts, k)
+				}
+				for i := 0; i < times; i++ {
+					l.Info("entry")
+				}
+				want := map[string]int{}
+				for _, h := range own {
+					want[h] = times
+				}
+				for _, h := range append(append([]string{}, path...), "siblingA", "siblingB") {
+					if counts[h] != want[h] {
+						finds = append(finds, Finding{Key: map[bool]string{true: "C05/hook-missing", false: "C05/hook-fired-without-accept"}[counts[h] < want[h]],
+							What: fmt.Sprintf("%d hook layers (registered %s), then two sibling loggers each adding a hook: %d entries through %s fired hook %s %d times, want %d (hooks fired: %v)", depth, map[bool]string{true: "with RegisterHooks", false: "with the zap.Hooks option"}[viaCore], times, who, h, counts[h], want[h], counts)})
+						return
+					}
+				}
+			}
+			check("sibling A", a, append(append([]string{}, path...), "siblingA"), 2)
+			check("sibling B", b, append(append([]string{}, path...), "siblingB"), 1)
+			check("the parent", lg, path, 3)
+		}
+	}
+	return finds
+}
+
+func observerNew() (zapcore.Core, interface{}) {
+	c, l := observer.New(zapcore.DebugLevel)
+	return c, l
 }
